@@ -15,6 +15,18 @@ pub struct PageDiff {
 }
 
 impl PageDiff {
+    /// Verification hook: a diff with exactly these two words (also the reserved bits).
+    #[cfg(nomt_verif)]
+    pub fn verif_from_words(changed_nodes: [u64; 2]) -> Self {
+        PageDiff { changed_nodes }
+    }
+
+    /// Verification hook: the two words of the bitfield.
+    #[cfg(nomt_verif)]
+    pub fn verif_words(&self) -> [u64; 2] {
+        self.changed_nodes
+    }
+
     /// Create a new page diff from bytes.
     ///
     /// Returns `None` if any of reserved bits are set to 1.
